@@ -47,7 +47,7 @@ Proof. vm_compute. repeat split. Qed.
 (* 3. the maps shared by connection goroutines are only touched with a mutex held (a concurrent map write aborts
       the whole process and cannot be recovered); the handler table is written before serving starts *)
 Theorem C03_shared_maps_locked :
-  forallb (fun u => let '(_, field, held) := u in held || String.eqb field "handlers") map_uses = true.
+  forallb (fun u => snd u || String.eqb (snd (fst u)) "handlers") map_uses = true.
 Proof. vm_compute. reflexivity. Qed.
 
 (* 4. goroutines: exactly the known set (a panic in a goroutine without its own recovery ends the process, so a
@@ -69,8 +69,8 @@ Definition reviewed_sections : list (string * string) :=
   [("*Server.Serve", "s.rateLimitersMu"); ("*Server.keepaliveHandler", "c.mu"); ("*Server.handleNewConnection", "s.agreementMu");
    ("HandleGetMsgs", "messageBoardMu"); ("HandleTranOldPostNews", "messageBoardMu")].
 Theorem C03_locks_released_on_panic :
-  forallb (fun l => let '(fn, mu, deferred) := l in
-                    deferred || existsb (fun k => String.eqb fn (fst k) && String.eqb mu (snd k)) reviewed_sections) lock_sites = true.
+  forallb (fun l => snd l || existsb (fun k => String.eqb (fst (fst l)) (fst k) && String.eqb (snd (fst l)) (snd k)) reviewed_sections)
+          lock_sites = true.
 Proof. vm_compute. reflexivity. Qed.
 
 (* ---- the bracket: whatever the peer sends and however the handler ends, the connection's footprint is gone ---- *)
